@@ -515,6 +515,9 @@ class RowEval:
         if isinstance(t, ast.Name):
             if isinstance(v, Int) and v.v is None:
                 v = Int(fresh(t.id))  # an unknown integer: opaque, but the same symbol wherever this binding is used
+            elif isinstance(v, Arr) and v.rows is None:
+                # an array of unknown length: opaque, but the same length wherever this binding is used (len(x), x.shape[0])
+                v = Arr(fresh(f"rows({t.id})"), v.cols, v.ndim, v.unique, v.tag)
             env[t.id] = v
         elif isinstance(t, (ast.Tuple, ast.List)):
             if isinstance(v, Tup) and len(v.elts) == len(t.elts):
